@@ -771,6 +771,11 @@ func dropUnusedImports(f *ast.File) {
 			}
 			p, _ := strconv.Unquote(im.Path.Value)
 			name := p[strings.LastIndex(p, "/")+1:]
+			if len(name) >= 2 && name[0] == 'v' && strings.Trim(name[1:], "0123456789") == "" && strings.Contains(p, "/") {
+				// major-version suffix: math/rand/v2 is package rand
+				q := p[:strings.LastIndex(p, "/")]
+				name = q[strings.LastIndex(q, "/")+1:]
+			}
 			if im.Name != nil {
 				name = im.Name.Name
 			}
@@ -944,6 +949,11 @@ func main() {
 	var mains []string
 	for _, path := range l.order {
 		pi := l.pkgs[path]
+		// rewrite first, so that the initialiser copies emitted by genReset already use the
+		// simulator's seams (a package-level `var x = rand.N(..)` or `time.Now()`)
+		for _, f := range pi.files {
+			rewriteFile(l, pi, f)
+		}
 		genReset(l, pi)
 		outDir := filepath.Join(out, strings.TrimPrefix(strings.TrimPrefix(path, module), "/"))
 		// non-go files of the package directory (go:embed targets)
@@ -956,7 +966,6 @@ func main() {
 			}
 		}
 		for i, f := range pi.files {
-			rewriteFile(l, pi, f)
 			if pi.isMain {
 				for _, d := range f.Decls {
 					if fd, ok := d.(*ast.FuncDecl); ok && fd.Recv == nil && fd.Name.Name == "main" {
